@@ -140,6 +140,11 @@ func loadServiceConfigs(raw []byte, cluster, scheme string, configVars map[strin
 	configs := make([]*UpstreamConfig, 0)
 	// resolve overrides
 	for _, service := range serviceConfigs {
+		if service == nil {
+			return nil, &ErrParsingConfig{
+				Message: "empty service entry",
+			}
+		}
 		proxy, err := resolveUpstreamConfig(service, cluster)
 		if err != nil {
 			return nil, err
@@ -159,6 +164,11 @@ func loadServiceConfigs(raw []byte, cluster, scheme string, configVars map[strin
 		}
 
 		for _, extra := range proxy.ExtraRoutes {
+			if extra == nil {
+				return nil, &ErrParsingConfig{
+					Message: fmt.Sprintf("empty extra_routes entry in service %q", proxy.Service),
+				}
+			}
 			resolvedProxy, err := resolveExtraRoute(extra, proxy)
 			if err != nil {
 				return nil, err
